@@ -3,7 +3,8 @@ SPEC = {
     'engine': 'acti', 'harness': 'acti.cpp',
     # ActisenseReader.cpp is not in the repo's CMake list; N2kTimer.cpp is NOT linked: the harness supplies N2kMillis()
     'repo_srcs': ['N2kMsg.cpp', 'N2kStream.cpp', 'ActisenseReader.cpp'],
-    'lean_modules': ['N2k.Props.C17'], 'props_files': ['N2k/Props/C17.lean'],
+    'translators': ['constants'],
+    'lean_modules': ['N2k.Props.Consts.C17', 'N2k.Props.C17'], 'props_files': ['N2k/Props/Consts/C17.lean', 'N2k/Props/C17.lean'],
     'case_start': ['enc', 'rnew'],
     'trusted_base': ["model N2k/Model/Actisense.lean transcribes SendInActisenseFormat/AddByteEscapedToBuf (N2kMsg.cpp) and "
                      "tActisenseReader (ActisenseReader.cpp) by hand; the index width (uint16_t) and buffer sizes (478, 300, 223) "
